@@ -636,8 +636,9 @@ end towers
 
 /-! ### `MSMX`: explicit window values (digit programs)
 
-`prog` = comma separated items `<body>[#j][@m][*k]`: body = window value `w` or sweep `lo:hi` (inclusive, descending when
-lo > hi), `#j` = only window j carries the value (default: every window of `[wlo, whi)`), `@m` = the point is `[m·a₀]G`
+`prog` = comma separated items `<body>[~][#j][@m][*k]`: body = window value `w` or sweep `lo:hi` (inclusive, descending when
+lo > hi), `~` = the signed digit is `−w` (scalar `2^(c·whi) − w·Σ 2^(c·k)`, with `#j`: `2^(c·(j+1)) − w·2^(c·j)`),
+`#j` = only window j carries the value (default: every window of `[wlo, whi)`), `@m` = the point is `[m·a₀]G`
 (m signed; default: the pairwise distinct point `[a₀ + i·d]G`, i = position), `^k` = the point is `−[a₀ + (i−k)·d]G` (the
 opposite of the point k positions earlier), `*k` = the item k times. `tail` = 1 repeats the program cyclically up to n
 entries, 0 leaves the other scalars zero. Entries with value 0 and the entries of the tail have the point G, scalar 0. -/
@@ -647,6 +648,7 @@ structure XEntry where
   win : Option Nat
   m : Option Int
   back : Option Nat
+  neg : Bool := false
 deriving Repr
 
 def splitSuffix (s : String) (ch : Char) : String × Option String :=
@@ -659,13 +661,15 @@ def parseItem (it : String) : List XEntry :=
   let (it, bk) := splitSuffix it '^'
   let (it, m) := splitSuffix it '@'
   let (body, j) := splitSuffix it '#'
+  let neg := body.endsWith "~"
+  let body := if neg then (body.dropEnd 1).toString else body
   let ws : List Nat := match body.splitOn ":" with
     | [lo, hi] =>
       let lo := parseHexD lo
       let hi := parseHexD hi
       if lo ≤ hi then List.range' lo (hi + 1 - lo) else (List.range' hi (lo + 1 - hi)).reverse
     | _ => [parseHexD body]
-  let es := ws.map (fun w => ({ w, win := j.map parseHexD, m := m.map parseInt, back := bk.map parseHexD } : XEntry))
+  let es := ws.map (fun w => ({ w, win := j.map parseHexD, m := m.map parseInt, back := bk.map parseHexD, neg } : XEntry))
   (List.replicate ((k.map parseHexD).getD 1) es).flatten
 
 def parseProg (s : String) : Array XEntry :=
@@ -688,10 +692,16 @@ def xVectors (r a0 d n c tail wlo whi : Nat) (E : Array XEntry) : Array Nat × A
       | none, none => (a0 + i * d) % r)
   let S := (Array.range n).map (fun i => match ent i with
     | none => 0
-    | some e => match e.win with
-      | none => e.w * rep % r
-      | some j => e.w * 2^(c*j) % r)
+    | some e =>
+      let (v, top) := match e.win with
+        | none => (e.w * rep, whi)
+        | some j => (e.w * 2^(c*j), j + 1)
+      if e.neg then ((Int.ofNat (2^(c*top)) - Int.ofNat v) % Int.ofNat r).toNat else v % r)
   (A, S)
+
+/-- `MSMX … inner` lines up to this size / window also run the executable model of `_innerMsm` -/
+def innerCheckMaxN : Nat := 700
+def innerCheckMaxC : Nat := 10
 
 def showRanges (l : List (Nat × Nat)) : String :=
   if l.isEmpty then "-" else " ".intercalate (l.map (fun se => toHex se.1 ++ "," ++ toHex se.2))
@@ -724,10 +734,21 @@ def handle (args : List String) : String :=
     | some cfg =>
       let r := parseHexD r
       let n := parseHexD n
-      if r < 2 || !(api == "aff" || api == "jac") then "bad-op" else
+      if r < 2 || !(api == "aff" || api == "jac" || api == "inner") then "bad-op" else
       let (st, a0) := nextFr cfg.limbs r (UInt64.ofNat (parseHexD seed))
       let (_, d) := nextFr cfg.limbs r st
       let (A, S) := xVectors r a0 d n (parseHexD c) (parseHexD tail) (parseHexD wlo) (parseHexD whi) (parseProg prog)
+      if api == "inner" then
+        -- `_innerMsmG1/G2` run with the window of the line (overlay shim): the exact sum; on the small instances the
+        -- executable model of `_innerMsm` (Go's choice of the chunk processors) is run on the same input as a cross-check
+        let c := parseHexD c
+        let e := sumProd r A S
+        if parseInt nbTasks < 1 || !cfg.cs.contains c then "bad-op"
+        else if n ≤ innerCheckMaxN && c ≤ innerCheckMaxC &&
+            innerMsm { cfg with numCPU := parseHexD numCPU } (expOps r) c (goChoose cfg c) A.toList S.toList % r != e then
+          "model-mismatch:inner"
+        else pointResult tower p a b gx gy e
+      else
       let L : Line := { cfg, r, api, A, S, nbTasks := parseInt nbTasks, nScalars := n }
       match expectedExp L with
       | .error e => e
